@@ -74,6 +74,9 @@ type Expression interface {
 
 type Program struct {
 	Statements []Statement
+	// EndComments are the comments and blank lines between the last statement
+	// and the end of the input (the leading trivia of the end-of-input token)
+	EndComments []string
 }
 
 func (p *Program) WriteTo(cw *CodeWriter) {
@@ -84,6 +87,7 @@ func (p *Program) WriteTo(cw *CodeWriter) {
 		}
 		stmt.WriteTo(cw)
 	}
+	cw.WriteLeadingComments(p.EndComments)
 }
 
 // protectStatementBoundary keeps the semicolon between two statements when semicolons
